@@ -53,12 +53,13 @@ def rule_step(line: int, depth: int, vi: int) -> None:
 
 def p_error_message(tl: int, ll: int, vi: int) -> None:
     """
-    pre: 1 <= tl <= 5 and 1 <= ll <= 5 and 0 <= vi <= 2
+    pre: 1 <= tl <= 5 and 1 <= ll <= 5 and 0 <= vi <= 3
     post: True
     """
     hlib.enter(locals())
-    value = ['asd', ')', '+'][vi]
-    tok = Tok('NAME', value, tl, Lexer(ll))
+    from smartquery.custom_types import Decimal
+    value = ['asd', ')', '+', '12.5'][vi]
+    tok = Tok('NUMBER', Decimal(value), tl, Lexer(ll)) if vi == 3 else Tok('NAME', value, tl, Lexer(ll))
     msg = None
     try:
         rules.p_error(tok)
